@@ -203,6 +203,7 @@ pub struct InstrReader {
     delivery: Delivery,
     calls: usize,
     fault: Option<ReadFault>,
+    fault_hits: usize,
     pulled: Arc<AtomicU64>,
     /// endless tail: after `data`, repeat this forever (until budget); every b'#' in it is
     /// replaced by the repetition counter
@@ -239,6 +240,12 @@ impl Read for InstrReader {
         }
         if let Some(f) = &self.fault {
             if self.pos >= f.fail_at {
+                // a broken descriptor keeps failing; after 64 failures pretend EOF so that code
+                // which (wrongly) retries for ever still terminates and is judged by its result
+                self.fault_hits += 1;
+                if self.fault_hits > 64 {
+                    return Ok(0);
+                }
                 return Err(io::Error::new(f.kind, "injected read fault"));
             }
             want = want.min(f.fail_at - self.pos);
@@ -345,6 +352,7 @@ pub fn run_spec(spec: &RunSpec) -> (Outcome, RunExtra) {
                 delivery: delivery.clone(),
                 calls: 0,
                 fault: fault.clone(),
+                fault_hits: 0,
                 pulled: pulled.clone(),
                 tail: tail.clone(),
                 tail_pos: 0,
